@@ -17,6 +17,8 @@ for d in sorted(os.listdir(os.path.join(V, "seeded"))):
     verdict = m.get("check_verdict", "")
     if m.get("current_verdict"):
         verdict += " **Now:** " + m["current_verdict"] + "."
+    if m.get("rebased"):
+        verdict += " (" + m["rebased"] + ")"
     rows.append("| `seeded/%s` | %s | %s | %s |" % (d, m["property"], needs.replace("|", "/"), verdict.replace("|", "/")))
 table = "| change | property | what it is / what it needs to manifest (author's words, abridged) | verdict of `bin/check` (quick tier, via `bin/mutcheck`) |\n|---|---|---|---|\n" + "\n".join(rows) + "\n"
 p = os.path.join(V, "DESIGN.md")
@@ -43,6 +45,8 @@ for d in sorted(os.listdir(bd)) if os.path.isdir(bd) else []:
         verdict += " **Resolution:** " + m["resolution"]
     if m.get("current_verdict"):
         verdict += " **Now:** " + m["current_verdict"] + "."
+    if m.get("rebased"):
+        verdict += " (" + m["rebased"] + ")"
     brows.append("| `benign/%s` | %s | %s | %s |" % (d, m["property"], txt.replace("|", "/"), verdict.replace("|", "/")))
 btable = "| change | property | what it is (author's words, abridged) | verdict of `bin/check` (quick tier, via `bin/mutcheck`) |\n|---|---|---|---|\n" + "\n".join(brows) + "\n"
 a, b = "<!-- BENIGNTABLE BEGIN -->", "<!-- BENIGNTABLE END -->"
